@@ -77,6 +77,24 @@ type state struct {
 	trans  int64
 }
 
+// eofReader hands out everything asked for and reports io.EOF together with the final bytes.
+type eofReader struct {
+	data []byte
+	pos  int
+}
+
+func (e *eofReader) Read(p []byte) (int, error) {
+	if len(p) == 0 {
+		return 0, nil
+	}
+	n := copy(p, e.data[e.pos:])
+	e.pos += n
+	if e.pos >= len(e.data) {
+		return n, io.EOF
+	}
+	return n, nil
+}
+
 type sinkWriter struct {
 	b     [16]byte
 	n     int
@@ -204,6 +222,30 @@ func (st *state) checkEnc(long bool, v int64) {
 	want := uint64(v)
 	if !long {
 		want = uint64(uint32(int32(v)))
+	}
+	// a plain reader that ends exactly at the end of the encoding and reports io.EOF together with
+	// the last byte (legal io.Reader behaviour; decompressors do it): the value is complete
+	{
+		er := eofReader{data: ref}
+		var got uint64
+		var n int64
+		var err error
+		if long {
+			out := pk.VarLong(0x5aa55aa55aa55aa5)
+			n, err = out.ReadFrom(&er)
+			got = uint64(out)
+		} else {
+			out := pk.VarInt(0x5aa55aa5)
+			n, err = out.ReadFrom(&er)
+			got = uint64(uint32(out))
+		}
+		st.trans++
+		pre := "roundtrip/" + tn + ".ReadFrom/plain-eof-with-last-byte/"
+		if err != nil {
+			st.failf(pre+"error-on-encoder-output", "decoding %x (the encoding of %d) from a reader that returns the last byte together with io.EOF returned error %v", ref, v, err)
+		} else if got != want || n != int64(len(ref)) {
+			st.failf(pre+"wrong-value-or-count", "decoding %x from a reader that returns the last byte together with io.EOF gave %#x, n=%d; want %#x, n=%d", ref, got, n, want, len(ref))
+		}
 	}
 	for src := 0; src < 2; src++ {
 		got, n, err, consumed := st.decodeFrom(long, stream, src)
